@@ -1383,7 +1383,7 @@ pub fn run(ctx: &Ctx, rep: &mut Report, replay: Option<&serde_json::Value>) {
             let target = format!("dec_{}", rec.name());
             crate::fz::campaign(ctx, rep, &target, 1_000_000, 1024, |d, i| x.judge_record(rec, d, true, true, i));
         }
-        crate::fz::campaign(ctx, rep, "archive_file", 300_000, 4096, |d, i| x.judge_archive(d, &probes, CALL_ALL, true, i));
+        crate::fz::campaign(ctx, rep, "archive_file", 100_000, 4096, |d, i| x.judge_archive(d, &probes, CALL_ALL, true, i));
         x.flush(rep);
     }
 }
